@@ -11,7 +11,8 @@ minimiser walks back towards it.
 Names: `n` is the name bound by the binder under test; `m`, `l`, `k` are the other names a use
 reads.  Session globals always available to the programs (they are *bound*, the binder lines read
 them legitimately): mk (makes an instrumented object), XE (instrumented exception class), XC (class
-for class patterns), ident.
+for class patterns), ident, q (an instrumented object tagged like the bound name), xs = [q-like],
+xt = [(0, q-like)].
 """
 
 IND = "    "
@@ -213,19 +214,27 @@ _b("param-kwonly-default", block=f"def p9(*z, {{n}}={MK}):", post=["p9()"], fami
 _b("param-vararg", block="def p9(*{n}):", post=[f"p9({MK})"], family="param")
 _b("param-kwarg", block="def p9(**{n}):", post=[f"p9(z={MK})"], family="param")
 _b("param-annotated", block="def p9({n}: int) -> None:", post=[f"p9({MK})"], family="param")
-_b("lambda-param", embed=[f"(lambda {{n}}: {{U}})({MK})"], family="lambda")
-_b("lambda-default", embed=[f"(lambda {{n}}={MK}: {{U}})()"], family="lambda")
-_b("lambda-assigned", embed=["z = lambda {n}: {U}", f"z({MK})"], family="lambda")
-_b("lambda-vararg", embed=[f"(lambda *{{n}}: {{U}})({MK})"], family="lambda")
-_b("lambda-in-call", embed=[f"ident(lambda {{n}}: {{U}})({MK})"], family="lambda")
-_b("listcomp", embed=[f"[{{U}} for {{n}} in [{MK}]]"], listed="guidance", family="comp")
-_b("setcomp", embed=[f"{{{{{{U}} for {{n}} in [{MK}]}}}}"], listed="guidance", family="comp")
-_b("genexp", embed=[f"list({{U}} for {{n}} in [{MK}])"], listed="guidance", family="comp")
-_b("dictcomp", embed=[f"{{{{0: {{U}} for {{n}} in [{MK}]}}}}"], listed="guidance", family="comp")
-_b("comp-second-for", embed=[f"[{{U}} for z in (0,) for {{n}} in [{MK}]]"], listed="guidance", family="comp")
-_b("comp-if", embed=[f"[0 for {{n}} in [{MK}] if {{U}}]"], listed="guidance", family="comp")
-_b("comp-tuple-target", embed=[f"[{{U}} for z, {{n}} in [(0, {MK})]]"], listed="guidance", family="comp")
-_b("comp-assigned", embed=[f"z = [{{U}} for {{n}} in [{MK}]]"], listed="guidance", family="comp")
+# embed binders share a line with the use: keep that line free of calls/strings (session globals
+# q = the value, xs = [value], xt = [(0, value)]) so that a wrong "not in scope" verdict is not hidden
+# by the subprocess re-parse of the line failing; the *-mk variants keep the mk("n") spelling.
+_b("lambda-param", embed=["(lambda {n}: {U})(q)"], family="lambda")
+_b("lambda-param-mk", embed=[f"(lambda {{n}}: {{U}})({MK})"], family="lambda")
+_b("lambda-default", embed=["(lambda {n}=q: {U})()"], family="lambda")
+_b("lambda-assigned", embed=["z = lambda {n}: {U}", "z(q)"], family="lambda")
+_b("lambda-vararg", embed=["(lambda *{n}: {U})(q)"], family="lambda")
+_b("lambda-in-call", embed=["ident(lambda {n}: {U})(q)"], family="lambda")
+_b("lambda-kwonly", embed=["(lambda *, {n}: {U})({n}=q)"], family="lambda")
+_b("listcomp", embed=["[{U} for {n} in xs]"], listed="guidance", family="comp")
+_b("listcomp-mk", embed=[f"[{{U}} for {{n}} in [{MK}]]"], listed="guidance", family="comp")
+_b("setcomp", embed=["{{{U} for {n} in xs}}"], listed="guidance", family="comp")
+_b("genexp", embed=["list({U} for {n} in xs)"], listed="guidance", family="comp")
+_b("genexp-bare", embed=["({U} for {n} in xs)"], listed="guidance", family="comp")
+_b("dictcomp", embed=["{{0: {U} for {n} in xs}}"], listed="guidance", family="comp")
+_b("comp-second-for", embed=["[{U} for z in xs for {n} in xs]"], listed="guidance", family="comp")
+_b("comp-if", embed=["[0 for {n} in xs if {U}]"], listed="guidance", family="comp")
+_b("comp-tuple-target", embed=["[{U} for z, {n} in xt]"], listed="guidance", family="comp")
+_b("comp-assigned", embed=["z = [{U} for {n} in xs]"], listed="guidance", family="comp")
+_b("comp-subscript", embed=["[{U} for {n} in xs][0]"], listed="guidance", family="comp")
 _b("match-capture", [f"match {MK}:"], block=IND + "case {n}:", listed="guidance", family="match")
 _b("match-as", [f"match {MK}:"], block=IND + "case _ as {n}:", listed="guidance", family="match")
 _b("match-seq", [f"match [0, {MK}]:"], block=IND + "case [z, {n}]:", listed="guidance", family="match")
